@@ -21,7 +21,7 @@ RULE = ("case = one generated all-explicit declaration + 2-3 permutations of its
         "a repr of different signedness or width; distinct by (discriminant->name map, permutations, reprs, configuration)")
 
 PROFILE = S.profile(renames=0.3, dups=0.0, attrs=0.05, cfg_off=0.0, repr_cfg_attr=0.0,
-                    sizes=[("small", 80), ("medium", 10), ("large", 10)], orders=["identity", "perm"])
+                    sizes=[("small", 70), ("medium", 10), ("large", 12), ("full8", 8)], orders=["identity", "perm"])
 
 
 @st.composite
